@@ -219,16 +219,25 @@ func checkTokens(s string, mode int, lm *lineMap, st *stats) *finding {
 		if a < prevEnd {
 			return &finding{"span overlaps the previous token: " + family(t, s) + " after " + family(prev, s), show()}
 		}
-		// start position
+		// start position. When text was skipped between the previous token (whose own span has just been verified) and
+		// this one, the skipping code is the construct at fault, not the previous token.
+		startCulprit := family(prev, s)
+		if gap := s[prevEnd:a]; gap != "" {
+			if strings.ContainsAny(gap, "#/*") {
+				startCulprit = "comment skipped between tokens"
+			} else {
+				startCulprit = "whitespace skipped between tokens"
+			}
+		}
 		if !lm.boundary[a] {
-			return &finding{"token line/column disagrees with its byte offset, construct: " + family(prev, s), "token starts inside a multi-byte character: " + show()}
+			return &finding{"token line/column disagrees with its byte offset, construct: " + startCulprit, "token starts inside a multi-byte character: " + show()}
 		}
 		if int32(sp.StartPos.Line) != lm.line[a] {
-			return &finding{"token line/column disagrees with its byte offset, construct: " + family(prev, s),
+			return &finding{"token line/column disagrees with its byte offset, construct: " + startCulprit,
 				"start line: " + show() + fmt.Sprintf("; byte %d is on line %d", a, lm.line[a])}
 		}
 		if int32(sp.StartPos.Column) != lm.col[a] {
-			return &finding{"token line/column disagrees with its byte offset, construct: " + family(prev, s),
+			return &finding{"token line/column disagrees with its byte offset, construct: " + startCulprit,
 				"start column: " + show() + fmt.Sprintf("; byte %d is column %d of its line", a, lm.col[a])}
 		}
 		if b == a-1 {
